@@ -1,4 +1,4 @@
-//@unit U17 props=C01,C02,C03,C08,C11,C13,C14 rlimit=100 SendChannelReliable::get_packets_to_send as a whole: prologue, loop summary (rule D18), final flush (renet/src/channel/reliable.rs)
+//@unit U17 props=C01,C02,C03,C08,C09,C11,C13,C14,C15,C16 rlimit=100 SendChannelReliable::get_packets_to_send as a whole: prologue, loop summary (rule D18), final flush (renet/src/channel/reliable.rs)
 #![feature(allocator_api)]
 #![allow(unused_imports, dead_code, unused_variables, unused_mut)]
 use vstd::prelude::*;
